@@ -444,6 +444,42 @@ def gen_cases(rng, tier):
         if any(_risky_tie(a, b) for a, b in pairs):
             continue
         cases.append(c)
+    # integer-typed signals (int64 from lists / arange, int32, uint8, bool), with and without integer noise, against
+    # FRACTIONAL thresholds (x.5, x.25, above 255 for uint8, negative fractions) in every threshold form: the threshold must
+    # be compared as it is, not cast to the signal's dtype
+    frac_forms = ["scalar", "npscalar", "npscalar32", "list", "tuple", "ndarray", "esig", "esig_noise", "str", "list1"]
+    for dt in ["pylist", "arange", "int64", "int32", "uint8", "bool_"]:
+        for form in frac_forms:
+            for rep_ in range(2 if quick else 24):
+                n = rng.choice([1, 2, 3, 5, 8])
+                hi = 1 if dt == "bool_" else (120 if dt == "uint8" else 12)
+                lo = 0 if dt in ("uint8", "bool_", "arange") or rep_ % 2 == 0 else -12
+                sig = [[i, 0] for i in range(n)] if dt == "arange" else [[rng.randint(lo, hi), 0] for _ in range(n)]
+                noise = None
+                if rng.random() < 0.4 and dt != "bool_":
+                    noise = [[rng.randint(0, 3), 0] for _ in range(n)]
+                m = 1 if form in ("scalar", "npscalar", "npscalar32", "list1") else (rng.choice([1, n]) if form == "str" else n)
+                def frac(i):
+                    base = sig[min(i, n - 1)][0] + (noise[min(i, n - 1)][0] if noise else 0)
+                    k = rng.choice([8 * base + 4, 8 * base - 4, 8 * base + 2, 8 * base - 2, 8 * base + 6, 4, 2, 20,
+                                    rng.randrange(0, 8 * hi + 8), 2 * rng.randrange(0, 4 * hi + 4) + 1])
+                    if dt == "uint8" and rng.random() < 0.25:
+                        k = 8 * rng.choice([256, 257, 300, 511]) + rng.choice([2, 4, 6])
+                    if rng.random() < 0.1:
+                        k = -abs(k) - 4
+                    if form == "str" and k < 0:
+                        k = -k
+                    return k
+                tv = [[frac(i), 0] for i in range(m)]
+                tn = [[rng.choice([0, 2, 4, 8]), 0] for _ in range(m)] if form == "esig_noise" else None
+                cases.append({"kind": "cmp", "op": rng.choice(["gt", "lt"]), "sig": sig, "noise": noise, "sscale": 1, "scale": SCALE,
+                              "sig_dtype": dt, "thr": {"form": form, "vals": tv, "noise": tn}})
+    # the plain instance of the documented use: a ramp against x.5
+    for n in [4, 8]:
+        for op in ("gt", "lt"):
+            for form in ("scalar", "ndarray"):
+                cases.append({"kind": "cmp", "op": op, "sig": [[i, 0] for i in range(n)], "noise": None, "sscale": 1, "scale": SCALE,
+                              "sig_dtype": "arange", "thr": {"form": form, "vals": [[20, 0]] * (1 if form == "scalar" else n), "noise": None}})
     # all comparisons of a 2-sample signal over a tiny grid with a scalar / array threshold (ties included)
     grid = [0, 1, 2] if quick else [0, 1, 2, 3]
     for s0, s1, n0, t0 in itertools.product(grid, grid, [None] + grid[:2], grid):
@@ -579,6 +615,8 @@ def _thr_obj(thr, scale):
         return v[0]
     if form == "npscalar":
         return np.float64(v[0]) if scale != 1 else np.int64(v[0])
+    if form == "npscalar32":
+        return np.float32(v[0])
     if form in ("list", "list1", "wrong_len", "empty"):
         return list(v)
     if form == "tuple":
@@ -604,8 +642,21 @@ def _run_cmp(case):
     import numpy as np
     from opticomlib.typing import electrical_signal
     scale = case["scale"]
-    sig = _vals(case["sig"], scale)
-    x = electrical_signal(sig) if case["noise"] is None else electrical_signal(sig, _vals(case["noise"], scale))
+    sscale = case.get("sscale", scale)
+    dt = case.get("sig_dtype")
+    if dt is None:
+        sig = _vals(case["sig"], sscale)
+        noi = None if case["noise"] is None else _vals(case["noise"], sscale)
+    else:
+        # integer-typed signal (and noise): numpy integer / bool arrays, or plain Python int lists
+        mk = (lambda zs: [int(z[0]) for z in zs]) if dt == "pylist" else \
+             (lambda zs: np.arange(len(zs))) if dt == "arange" else \
+             (lambda zs: np.array([z[0] for z in zs], dtype=getattr(np, dt)))
+        sig = mk(case["sig"])
+        noi = None if case["noise"] is None else (
+            [int(z[0]) for z in case["noise"]] if dt == "pylist" else
+            np.array([z[0] for z in case["noise"]], dtype=np.int64 if dt == "arange" else getattr(np, dt)))
+    x = electrical_signal(sig) if noi is None else electrical_signal(sig, noi)
     t = _thr_obj(case["thr"], scale)
     s0 = x.signal.tobytes()
     n0 = None if x.noise is None else x.noise.tobytes()
@@ -645,8 +696,16 @@ def _modelled_index(ix):
     return ix["t"] in ("int", "npint", "slice", "newaxis", "ellipsis")
 
 
-def _wire_samples(zs):
-    return " ".join([str(len(zs))] + [f"{z[0]} {z[1]}" for z in zs])
+def _wire_samples(zs, mul=1):
+    return " ".join([str(len(zs))] + [f"{z[0] * mul} {z[1] * mul}" for z in zs])
+
+
+def _muls(case):
+    """multipliers bringing signal-side and threshold-side integers to one common unit (the model is exact)"""
+    scale = case["scale"]
+    sscale = case.get("sscale", scale)
+    top = max(scale, sscale)
+    return top // sscale, top // scale
 
 
 def model_requests(case, res):
@@ -671,13 +730,14 @@ def model_requests(case, res):
         thr = case["thr"]
         if thr["form"] in ("none", "dict", "text"):
             return []
-        n = "none" if case["noise"] is None else "some " + _wire_samples(case["noise"])
+        ms, mt = _muls(case)
+        n = "none" if case["noise"] is None else "some " + _wire_samples(case["noise"], ms)
         if thr["form"] == "nd2":
             t = "bad"
         else:
-            tn = "none" if thr.get("noise") is None else "some " + _wire_samples(thr["noise"])
-            t = f"thr {_wire_samples(thr['vals'])} {tn}"
-        return [f"binseq.cmp {case['op']} {_wire_samples(case['sig'])} {n} {t}"]
+            tn = "none" if thr.get("noise") is None else "some " + _wire_samples(thr["noise"], mt)
+            t = f"thr {_wire_samples(thr['vals'], mt)} {tn}"
+        return [f"binseq.cmp {case['op']} {_wire_samples(case['sig'], ms)} {n} {t}"]
     return []
 
 
@@ -838,8 +898,10 @@ def oracle(case, res):
     if kind == "cmp":
         thr = case["thr"]
         n = len(case["sig"])
-        what = f"electrical_signal({case['sig'][:6]}{'' if case['noise'] is None else ', noise=' + str(case['noise'][:6])})/{case['scale']} " \
-               f"{'>' if case['op'] == 'gt' else '<'} {thr['form']} {str(thr.get('vals', thr.get('text')))[:60]}"
+        what = f"electrical_signal({[z[0] if not z[1] else z for z in case['sig'][:8]]}" \
+               f"{'' if case['noise'] is None else ', noise=' + str([z[0] for z in case['noise'][:8]])})/{case.get('sscale', case['scale'])}" \
+               f"{' dtype ' + case['sig_dtype'] if case.get('sig_dtype') else ''} " \
+               f"{'>' if case['op'] == 'gt' else '<'} {thr['form']} {str([z[0] if not z[1] else z for z in thr['vals'][:8]] if 'vals' in thr else thr.get('text'))[:60]}/{case['scale']}"
         if not res.get("self_unchanged", True):
             v.append(("C15:cmp-mutates", f"{what}: the signal object changed"))
         if res["status"] == "ok":
@@ -853,10 +915,14 @@ def oracle(case, res):
         if res["status"] != "ok":
             v.append(("C15:cmp-fails", f"{what}: {res.get('exc')}: {res.get('detail')}"))
             return v
-        tot = [[s[0] + (case["noise"][i][0] if case["noise"] else 0), s[1] + (case["noise"][i][1] if case["noise"] else 0)]
+        # exact values (Fractions): signal side in units of 1/sscale, threshold side in units of 1/scale
+        ss, ts = Fraction(1, case.get("sscale", case["scale"])), Fraction(1, case["scale"])
+        tot = [[(s[0] + (case["noise"][i][0] if case["noise"] else 0)) * ss, (s[1] + (case["noise"][i][1] if case["noise"] else 0)) * ss]
                for i, s in enumerate(case["sig"])]
-        tv = [[t[0] + (thr["noise"][i][0] if thr.get("noise") else 0), t[1]] for i, t in enumerate(thr["vals"])]
+        tv = [[(t[0] + (thr["noise"][i][0] if thr.get("noise") else 0)) * ts, t[1] * ts] for i, t in enumerate(thr["vals"])]
         tv = tv * n if m == 1 else tv
+        if case.get("sig_dtype") == "bool_" and case["noise"]:
+            return v     # bool + bool is a logical OR in numpy, not a sum: outside the statement's arithmetic reading
         real = all(z[1] == 0 for z in tot + tv + case["sig"])
         nonneg = real and all(z[0] >= 0 for z in tot + tv + case["sig"]) and (not case["noise"] or all(z[0] >= 0 for z in case["noise"]))
         if nonneg:
@@ -899,6 +965,8 @@ def features(case, res):
         f.append("cmp:op=" + case["op"])
         f.append("cmp:noise=" + ("yes" if case["noise"] else "no"))
         f.append("cmp:dtype=" + str(res.get("dtype_sig")))
+        if case.get("sig_dtype"):
+            f.append("cmp:int-signal-vs-fractional-thr:" + case["sig_dtype"])
         if res["status"] == "err":
             f.append("cmp:err=" + res["err"])
     return f
